@@ -408,6 +408,36 @@ def catalogue():
         lambda cs: {"outlets": [cs.draw(f"o{i}", 63) for i in range(4)],
                     "f": cs.flip("f", 40),
                     "boundary": cs.flip("boundary", 40)}, weight=6)
+    def from_dict_foreign_cells(a, o):
+        """A catchment description whose cell lists do not fit its grid (made
+        for a larger grid, or edited by hand), then the usual methods."""
+        n = int(a.fd.nrows * a.fd.ncols)
+        cells = np.array([c if c >= 0 else n + (-c) * o["far"]
+                          for c in o["cells"]], dtype=np.int64)
+        dic = {"name": "foreign", "idxcell_outlet": int(cells[0]),
+               "idxinlets": None, "idxcells_area": cells.tolist(),
+               "idxcells_area_filled": cells.tolist(),
+               "flowdir": a.fd.to_dict()}
+        c = hgrid.Catchment.from_dict(dic)
+        out = []
+        for step in o["then"]:
+            if step == "boundary":
+                c.delineate_boundary()
+            elif step == "extent":
+                out.append(c.extent())
+            elif step == "flowpaths":
+                c.compute_flowpathlengths()
+            elif step == "intersect":
+                out.append(c.intersect(a.g))
+        return out
+    add("Catchment.from_dict(cells not fitting the grid) then methods",
+        [FD, ("g", "coarse", None)], from_dict_foreign_cells,
+        lambda cs: {"cells": [cs.choice(f"c{i}", [0, 1, 2, 5, -1, -2, -7, 3])
+                              for i in range(cs.between("nc", 2, 6))],
+                    "far": cs.choice("far", [1, 3, 1000, 2 ** 33]),
+                    "then": [cs.choice(f"t{i}", ["boundary", "extent",
+                                                 "flowpaths", "intersect"])
+                             for i in range(2)]}, weight=5)
     add("Catchment.extent/isin", [CA],
         lambda a, o: (a.c.extent(), a.c.isin(o["c"])),
         lambda cs: {"c": cell(cs, "c")}, weight=2)
